@@ -20,23 +20,35 @@ Proof.
   - intros [->|H]; [left; reflexivity|right; eapply IH; exact H].
 Qed.
 
-Definition reads_agree (r : repo) (t : target) (st st' : store) : Prop :=
-  forall p, In p (all_paths r t) -> fst p = true -> s_outs st' (snd p) = s_outs st (snd p).
+(* everything a target reads: its sources and the outputs of its tools *)
+Definition all_reads (r : repo) (t : target) : list path := all_paths r t ++ tool_paths r t.
 
-Lemma read_ext r t st st' p : reads_agree r t st st' -> In p (all_paths r t) -> read r st' p = read r st p.
+Definition reads_agree (r : repo) (t : target) (st st' : store) : Prop :=
+  forall p, In p (all_reads r t) -> fst p = true -> s_outs st' (snd p) = s_outs st (snd p).
+
+Lemma read_ext r t st st' p : reads_agree r t st st' -> In p (all_reads r t) -> read r st' p = read r st p.
 Proof.
   intros H Hin. unfold read. destruct (fst p) eqn:E; [|reflexivity]. rewrite (H p Hin E). reflexivity.
 Qed.
 
 Lemma source_key_ext r t st st' : reads_agree r t st st' -> source_key r st' t = source_key r st t.
 Proof.
-  intros H. unfold source_key. f_equal. apply gather_ext. intros p Hp.
-  eapply read_ext; [exact H|]. unfold iter_sources in Hp. eapply dedup_incl. exact Hp.
+  intros H. unfold source_key.
+  rewrite (gather_ext (read r st) (read r st') (iter_sources r t)).
+  - rewrite (gather_ext (read r st) (read r st') (tool_paths r t)); [reflexivity|].
+    intros p Hp. eapply read_ext; [exact H|]. unfold all_reads. apply in_or_app. right. exact Hp.
+  - intros p Hp. eapply read_ext; [exact H|]. unfold all_reads. apply in_or_app. left.
+    unfold iter_sources in Hp. eapply dedup_incl. exact Hp.
 Qed.
 
-Lemma gather_all_ext r t st st' : reads_agree r t st st' ->
-  gather (read r st') (all_paths r t) = gather (read r st) (all_paths r t).
-Proof. intros H. apply gather_ext. intros p Hp. eapply read_ext; eassumption. Qed.
+Lemma gather_in_ext r t st st' : reads_agree r t st st' -> gather_in r st' t = gather_in r st t.
+Proof.
+  intros H. unfold gather_in.
+  rewrite (gather_ext (read r st) (read r st') (all_paths r t)).
+  - rewrite (gather_ext (read r st) (read r st') (tool_paths r t)); [reflexivity|].
+    intros p Hp. eapply read_ext; [exact H|]. unfold all_reads. apply in_or_app. right. exact Hp.
+  - intros p Hp. eapply read_ext; [exact H|]. unfold all_reads. apply in_or_app. left. exact Hp.
+Qed.
 
 Lemma common_rec_ext st st' rels : (forall rel, In rel rels -> s_outs st' rel = s_outs st rel) ->
   common_rec st' rels = common_rec st rels.
@@ -88,8 +100,8 @@ Qed.
 (* settled: a second look at the target changes nothing *)
 
 Definition fg_file_ok (r : repo) (st : store) (t : target) (f : str) : Prop :=
-  exists c e, alookup (join (t_pkg t) f) (r_files r) = Some c
-              /\ s_outs st (join (t_pkg t) f) = Some e /\ str_eqb (stream (e_node e)) c = true.
+  exists c e, fg_src r (join (t_pkg t) f) = Some c
+              /\ s_outs st (join (t_pkg t) f) = Some e /\ str_eqb (stream (e_node e)) (stream c) = true.
 
 (* for a target with output_dirs: both checks pass, the second one on the outputs the metadata names *)
 Definition settled (r : repo) (st : store) (t : target) : Prop :=
@@ -124,14 +136,14 @@ Qed.
 Lemma fg_noop r t rn fs : (forall f, In f fs -> fg_file_ok r (rn_st rn) t f) ->
   fold_left (fun rn f =>
                let rel := join (t_pkg t) f in
-               match alookup rel (r_files r) with
+               match fg_src r rel with
                | None => fail_run rn t (rn_st rn)
                | Some c =>
                    let st := rn_st rn in
                    match s_outs st rel with
-                   | Some e => if str_eqb (stream (e_node e)) c then rn
-                               else mkRun (set_out st rel (Some (mkE (File false c) None))) (rn_log rn) (rn_failed rn)
-                   | None => mkRun (set_out st rel (Some (mkE (File false c) None))) (rn_log rn) (rn_failed rn)
+                   | Some e => if str_eqb (stream (e_node e)) (stream c) then rn
+                               else mkRun (set_out st rel (Some (mkE c None))) (rn_log rn) (rn_failed rn)
+                   | None => mkRun (set_out st rel (Some (mkE c None))) (rn_log rn) (rn_failed rn)
                    end
                end) fs rn = rn.
 Proof.
@@ -158,27 +170,27 @@ Proof.
 Qed.
 
 Lemma fg_step_preserves r t rn f p c :
-  alookup p (r_files r) = Some c ->
-  (exists e, s_outs (rn_st rn) p = Some e /\ str_eqb (stream (e_node e)) c = true) ->
+  fg_src r p = Some c ->
+  (exists e, s_outs (rn_st rn) p = Some e /\ str_eqb (stream (e_node e)) (stream c) = true) ->
   let rel := join (t_pkg t) f in
-  let rn1 := match alookup rel (r_files r) with
+  let rn1 := match fg_src r rel with
              | None => fail_run rn t (rn_st rn)
              | Some c =>
                  let st := rn_st rn in
                  match s_outs st rel with
-                 | Some e => if str_eqb (stream (e_node e)) c then rn
-                             else mkRun (set_out st rel (Some (mkE (File false c) None))) (rn_log rn) (rn_failed rn)
-                 | None => mkRun (set_out st rel (Some (mkE (File false c) None))) (rn_log rn) (rn_failed rn)
+                 | Some e => if str_eqb (stream (e_node e)) (stream c) then rn
+                             else mkRun (set_out st rel (Some (mkE c None))) (rn_log rn) (rn_failed rn)
+                 | None => mkRun (set_out st rel (Some (mkE c None))) (rn_log rn) (rn_failed rn)
                  end
              end in
-  exists e, s_outs (rn_st rn1) p = Some e /\ str_eqb (stream (e_node e)) c = true.
+  exists e, s_outs (rn_st rn1) p = Some e /\ str_eqb (stream (e_node e)) (stream c) = true.
 Proof.
   intros Hc [e [He Hs]]. cbn zeta.
-  destruct (alookup (join (t_pkg t) f) (r_files r)) as [c'|] eqn:Ec'; [|exists e; split; assumption].
+  destruct (fg_src r (join (t_pkg t) f)) as [c'|] eqn:Ec'; [|exists e; split; assumption].
   destruct (str_eqb_spec p (join (t_pkg t) f)) as [->|Hne].
   - rewrite He. assert (c' = c) by congruence. subst c'. rewrite Hs. exists e. split; assumption.
   - destruct (s_outs (rn_st rn) (join (t_pkg t) f)) as [e'|].
-    + destruct (str_eqb (stream (e_node e')) c'); [exists e; split; assumption|].
+    + destruct (str_eqb (stream (e_node e')) (stream c')); [exists e; split; assumption|].
       cbn [rn_st]. rewrite set_out_other by exact Hne. exists e. split; assumption.
     + cbn [rn_st]. rewrite set_out_other by exact Hne. exists e. split; assumption.
 Qed.
@@ -186,30 +198,30 @@ Qed.
 Lemma fg_settles r t fs : forall rn,
   let rn' := fold_left (fun rn f =>
                let rel := join (t_pkg t) f in
-               match alookup rel (r_files r) with
+               match fg_src r rel with
                | None => fail_run rn t (rn_st rn)
                | Some c =>
                    let st := rn_st rn in
                    match s_outs st rel with
-                   | Some e => if str_eqb (stream (e_node e)) c then rn
-                               else mkRun (set_out st rel (Some (mkE (File false c) None))) (rn_log rn) (rn_failed rn)
-                   | None => mkRun (set_out st rel (Some (mkE (File false c) None))) (rn_log rn) (rn_failed rn)
+                   | Some e => if str_eqb (stream (e_node e)) (stream c) then rn
+                               else mkRun (set_out st rel (Some (mkE c None))) (rn_log rn) (rn_failed rn)
+                   | None => mkRun (set_out st rel (Some (mkE c None))) (rn_log rn) (rn_failed rn)
                    end
                end) fs rn in
   (exists n, rn_failed rn' = repeat (t_label t) n ++ rn_failed rn)
   /\ (rn_failed rn' = rn_failed rn ->
       (forall f, In f fs -> fg_file_ok r (rn_st rn') t f)
-      /\ (forall p c, alookup p (r_files r) = Some c ->
-            (exists e, s_outs (rn_st rn) p = Some e /\ str_eqb (stream (e_node e)) c = true) ->
-            exists e, s_outs (rn_st rn') p = Some e /\ str_eqb (stream (e_node e)) c = true)).
+      /\ (forall p c, fg_src r p = Some c ->
+            (exists e, s_outs (rn_st rn) p = Some e /\ str_eqb (stream (e_node e)) (stream c) = true) ->
+            exists e, s_outs (rn_st rn') p = Some e /\ str_eqb (stream (e_node e)) (stream c) = true)).
 Proof.
   induction fs as [|f fs IH]; intros rn; cbn [fold_left].
   - cbn zeta. split; [exists 0; reflexivity|]. intros _. split; [intros f []|]. intros p c _ H. exact H.
-  - set (rn1 := match alookup (join (t_pkg t) f) (r_files r) with Some c => _ | None => _ end).
+  - set (rn1 := match fg_src r (join (t_pkg t) f) with Some c => _ | None => _ end).
     specialize (IH rn1). cbn zeta in IH. destruct IH as ([n Hn] & IH).
     assert (Hf1 : rn_failed rn1 = rn_failed rn \/ rn_failed rn1 = t_label t :: rn_failed rn).
-    { subst rn1. destruct (alookup (join (t_pkg t) f) (r_files r)) as [c|]; [|right; reflexivity].
-      destruct (s_outs (rn_st rn) (join (t_pkg t) f)) as [e|]; [destruct (str_eqb _ c)|]; left; reflexivity. }
+    { subst rn1. destruct (fg_src r (join (t_pkg t) f)) as [c|]; [|right; reflexivity].
+      destruct (s_outs (rn_st rn) (join (t_pkg t) f)) as [e|]; [destruct (str_eqb _ _)|]; left; reflexivity. }
     cbn zeta. split.
     + destruct Hf1 as [E|E]; rewrite Hn, E; [exists n; reflexivity|].
       exists (S n). replace (S n) with (n + 1) by lia. rewrite repeat_app, <- app_assoc. reflexivity.
@@ -224,19 +236,19 @@ Proof.
           apply repeat_app_nil in Hn. lia. }
       destruct Hno as [E ->]. cbn [repeat app] in Hn.
       destruct (IH Hn) as [IHa IHb].
-      assert (Hpres : forall p c, alookup p (r_files r) = Some c ->
-                (exists e, s_outs (rn_st rn) p = Some e /\ str_eqb (stream (e_node e)) c = true) ->
-                exists e, s_outs (rn_st rn1) p = Some e /\ str_eqb (stream (e_node e)) c = true).
+      assert (Hpres : forall p c, fg_src r p = Some c ->
+                (exists e, s_outs (rn_st rn) p = Some e /\ str_eqb (stream (e_node e)) (stream c) = true) ->
+                exists e, s_outs (rn_st rn1) p = Some e /\ str_eqb (stream (e_node e)) (stream c) = true).
       { intros p c Hc Hp. subst rn1. apply (fg_step_preserves r t rn f p c Hc Hp). }
       split.
       * intros g [<-|Hg]; [|apply IHa; exact Hg].
         (* the step for f itself succeeded and left the right content; later steps preserve it *)
-        assert (Hstep : exists c, alookup (join (t_pkg t) f) (r_files r) = Some c
-                   /\ exists e, s_outs (rn_st rn1) (join (t_pkg t) f) = Some e /\ str_eqb (stream (e_node e)) c = true).
-        { subst rn1. destruct (alookup (join (t_pkg t) f) (r_files r)) as [c|] eqn:Ec.
+        assert (Hstep : exists c, fg_src r (join (t_pkg t) f) = Some c
+                   /\ exists e, s_outs (rn_st rn1) (join (t_pkg t) f) = Some e /\ str_eqb (stream (e_node e)) (stream c) = true).
+        { subst rn1. destruct (fg_src r (join (t_pkg t) f)) as [c|] eqn:Ec.
           - exists c. split; [reflexivity|].
             destruct (s_outs (rn_st rn) (join (t_pkg t) f)) as [e|] eqn:Ee.
-            + destruct (str_eqb (stream (e_node e)) c) eqn:Es.
+            + destruct (str_eqb (stream (e_node e)) (stream c)) eqn:Es.
               * exists e. split; assumption.
               * cbn [rn_st]. rewrite set_out_same. eexists. split; [reflexivity|]. cbn. apply str_eqb_refl.
             + cbn [rn_st]. rewrite set_out_same. eexists. split; [reflexivity|]. cbn. apply str_eqb_refl.
@@ -244,6 +256,68 @@ Proof.
         destruct Hstep as (c & Hc & Hp). destruct (IHb _ _ Hc Hp) as (e & He & Hs).
         exists c, e. repeat split; assumption.
       * intros p c Hc Hp. apply IHb; [exact Hc|]. apply Hpres; assumption.
+Qed.
+
+(* ------------------------------------------------------------------------------------------ *)
+(* filegroups of files and of DIRECTORIES: an output is replaced wholesale or kept, never merged *)
+
+Definition fg_step (r : repo) (t : target) (rn : run) (f : str) : run :=
+  let rel := join (t_pkg t) f in
+  match fg_src r rel with
+  | None => fail_run rn t (rn_st rn)
+  | Some c =>
+      let st := rn_st rn in
+      match s_outs st rel with
+      | Some e => if str_eqb (stream (e_node e)) (stream c) then rn
+                  else mkRun (set_out st rel (Some (mkE c None))) (rn_log rn) (rn_failed rn)
+      | None => mkRun (set_out st rel (Some (mkE c None))) (rn_log rn) (rn_failed rn)
+      end
+  end.
+
+Lemma build_filegroup_steps r t rn : build_filegroup r t rn = fold_left (fg_step r t) (outputs t) rn.
+Proof. reflexivity. Qed.
+
+Lemma join_inj_l pkg a b : join pkg a = join pkg b -> a = b.
+Proof.
+  unfold join. destruct pkg as [|c pk]; [tauto|]. intros H. apply app_inv_head in H. injection H as ->. reflexivity.
+Qed.
+
+Lemma fg_step_other r t rn g f : g <> f -> s_outs (rn_st (fg_step r t rn g)) (join (t_pkg t) f) = s_outs (rn_st rn) (join (t_pkg t) f).
+Proof.
+  intros Hne. assert (Hrel : join (t_pkg t) f <> join (t_pkg t) g) by (intros E; apply join_inj_l in E; congruence).
+  unfold fg_step. destruct (fg_src r (join (t_pkg t) g)); [|reflexivity].
+  destruct (s_outs (rn_st rn) (join (t_pkg t) g)); [destruct (str_eqb _ _); [reflexivity|]|]; cbn [rn_st]; apply set_out_other; exact Hrel.
+Qed.
+
+Lemma fg_fold_other r t fs : forall rn f, ~ In f fs ->
+  s_outs (rn_st (fold_left (fg_step r t) fs rn)) (join (t_pkg t) f) = s_outs (rn_st rn) (join (t_pkg t) f).
+Proof.
+  induction fs as [|g fs IH]; intros rn f Hn; cbn [fold_left]; [reflexivity|].
+  rewrite IH by (intros Hi; apply Hn; right; exact Hi). apply fg_step_other. intros ->. apply Hn. left. reflexivity.
+Qed.
+
+(* what a filegroup leaves at the place of a source that exists (a file, or a directory with everything below it):
+   EXACTLY the source tree (RemoveAll, then a recursive link: nothing of an older tree survives), or the untouched old
+   output when its path hash equals that of the source.  For every repository, target, store and position in the run;
+   whether other sources of the filegroup are missing does not matter. *)
+Theorem filegroup_output_exact_or_kept r t fs : forall rn f n, NoDup fs -> In f fs -> fg_src r (join (t_pkg t) f) = Some n ->
+  let rel := join (t_pkg t) f in
+  let rn' := fold_left (fg_step r t) fs rn in
+  s_outs (rn_st rn') rel = Some (mkE n None)
+  \/ (s_outs (rn_st rn') rel = s_outs (rn_st rn) rel
+      /\ exists e, s_outs (rn_st rn) rel = Some e /\ stream (e_node e) = stream n).
+Proof.
+  induction fs as [|g fs IH]; intros rn f n Hnd Hin Hsrc; [destruct Hin|].
+  inversion Hnd as [|? ? Hnot Hnd']; subst. cbn zeta. cbn [fold_left]. destruct Hin as [->|Hin].
+  - rewrite (fg_fold_other r t fs _ f Hnot). unfold fg_step. rewrite Hsrc. cbn zeta.
+    destruct (s_outs (rn_st rn) (join (t_pkg t) f)) as [e|] eqn:Ee.
+    + destruct (str_eqb_spec (stream (e_node e)) (stream n)) as [Es|_].
+      * right. split; [exact Ee|]. exists e. split; [reflexivity|exact Es].
+      * left. cbn [rn_st]. apply set_out_same.
+    + left. cbn [rn_st]. apply set_out_same.
+  - assert (Hne : g <> f) by (intros ->; contradiction).
+    destruct (IH (fg_step r t rn g) f n Hnd' Hin Hsrc) as [H|[H1 [e [H2 H3]]]]; [left; exact H|].
+    right. rewrite (fg_step_other r t rn g f Hne) in H1, H2. split; [exact H1|]. exists e. split; assumption.
 Qed.
 
 Lemma out_rels_nonempty t : has_outs t = true -> is_filegroup t = false -> out_rels t <> [].
@@ -263,7 +337,7 @@ Proof. intros H. apply (f_equal (@length str)) in H. cbn in H. lia. Qed.
 (* a successful build of an output_dirs target from its declared outputs leaves both checks passing *)
 Lemma rebuild_od_settles r rn t :
   has_outs t = true -> is_filegroup t = false ->
-  (forall p, In p (all_paths r t) -> fst p = true -> ~ In (snd p) (claimed r t)) -> could_modify t = true ->
+  (forall p, In p (all_reads r t) -> fst p = true -> ~ In (snd p) (claimed r t)) -> could_modify t = true ->
   rn_failed (rebuild_od r rn t (outputs t)) = rn_failed rn ->
   let st1 := rn_st (rebuild_od r rn t (outputs t)) in
   needs_build r st1 t = false /\ needs_build_post r st1 t (meta_outs st1 t) = false
@@ -319,7 +393,7 @@ Qed.
 
 Lemma build_one_settles r rn t :
   has_outs t = true ->
-  (forall p, In p (all_paths r t) -> fst p = true -> ~ In (snd p) (claimed r t)) ->
+  (forall p, In p (all_reads r t) -> fst p = true -> ~ In (snd p) (claimed r t)) ->
   quiet_step r rn t ->
   rn_failed (build_one false r rn t) = rn_failed rn ->
   settled r (rn_st (build_one false r rn t)) t.
@@ -335,12 +409,12 @@ Proof.
       destruct (needs_build r (rn_st rn) t) eqn:Enb.
       - intros Hf. destruct (rebuild_od_settles r rn t Hhas Efg Hdisj Ecm Hf) as (H1 & H2 & _). split; assumption.
       - cbn [negb andb] in Hq. rewrite Hq. intros _. split; assumption. }
-    assert (Hdisj' : forall p, In p (all_paths r t) -> fst p = true -> ~ In (snd p) (out_rels t)).
+    assert (Hdisj' : forall p, In p (all_reads r t) -> fst p = true -> ~ In (snd p) (out_rels t)).
     { intros p Hp Hg Hi. apply (Hdisj p Hp Hg). apply out_rels_claimed. exact Hi. }
     unfold build_rule. destruct (needs_build r (rn_st rn) t) eqn:Enb; cbn [negb]; [|intros _; exact Enb].
     destruct (source_key r (rn_st rn) t) as [sk|] eqn:Esk.
     2:{ unfold fail_run. cbn. intros H. exfalso. apply (f_equal (@length str)) in H. cbn in H. lia. }
-    unfold run_action. destruct (gather (read r (rn_st rn)) (all_paths r t)) as [ins|].
+    unfold run_action. destruct (gather_in r (rn_st rn) t) as [ins|].
     2:{ unfold fail_run. cbn. intros H. exfalso. apply (f_equal (@length str)) in H. cbn in H. lia. }
     destruct (act (t_kind t) (outputs t) (tmp_ins ins)) as [news|] eqn:Ha.
     2:{ cbn. intros H. exfalso. apply (f_equal (@length str)) in H. cbn in H. lia. }
@@ -451,24 +525,44 @@ Proof.
   intros W Hs Hd H1 H2. eapply (claimed_disjoint r done t todo d rel); try eassumption; apply out_rels_claimed; assumption.
 Qed.
 
-(* every generated input of a target is an output of an earlier target *)
-Lemma inputs_earlier r done t todo p : WF r -> r_targets r = done ++ t :: todo ->
-  In p (all_paths r t) -> fst p = true -> exists d, In d done /\ In (snd p) (out_rels d).
+Lemma label_srcs_label l srcs : In (SLabel l) srcs -> In l (label_srcs srcs).
 Proof.
-  intros W Hs Hp Hg. unfold all_paths in Hp. apply in_flat_map in Hp. destruct Hp as [x [Hx Hp]].
-  destruct x as [f|l]; cbn [src_paths] in Hp.
-  - destruct Hp as [<-|[]]. discriminate.
-  - assert (Hl : In l (label_srcs (t_srcs t))).
-    { clear -Hx. induction (t_srcs t) as [|y ys IH]; [destruct Hx|]. destruct Hx as [->|Hx]; cbn [label_srcs].
-      - left. reflexivity.
-      - destruct y; [apply IH; exact Hx|right; apply IH; exact Hx]. }
-    destruct (wf_topo r W done t todo Hs l Hl) as [d [Hd Hf]]. rewrite Hf in Hp.
-    apply in_map_iff in Hp. destruct Hp as [o [<- Ho]]. exists d. split; [exact Hd|].
-    cbn [snd]. unfold out_rels. apply in_map. exact Ho.
+  induction srcs as [|y ys IH]; intros Hx; [destruct Hx|]. destruct Hx as [->|Hx]; cbn [label_srcs].
+  - left. reflexivity.
+  - destruct y; [apply IH; exact Hx|right; apply IH; exact Hx|right; apply IH; exact Hx].
+Qed.
+Lemma label_srcs_tool l srcs : In (STool l) srcs -> In l (label_srcs srcs).
+Proof.
+  induction srcs as [|y ys IH]; intros Hx; [destruct Hx|]. destruct Hx as [->|Hx]; cbn [label_srcs].
+  - left. reflexivity.
+  - destruct y; [apply IH; exact Hx|right; apply IH; exact Hx|right; apply IH; exact Hx].
+Qed.
+
+(* every generated input of a target - source or tool - is an output of an earlier target *)
+Lemma inputs_earlier r done t todo p : WF r -> r_targets r = done ++ t :: todo ->
+  In p (all_reads r t) -> fst p = true -> exists d, In d done /\ In (snd p) (out_rels d).
+Proof.
+  intros W Hs Hp Hg. unfold all_reads in Hp. apply in_app_or in Hp.
+  assert (Hdep : forall l, In l (label_srcs (t_srcs t)) ->
+            In p (match find_target (r_targets r) l with
+                  | Some d => map (fun o => (true, out_rel d o)) (outputs d) | None => [] end) ->
+            exists d, In d done /\ In (snd p) (out_rels d)).
+  { intros l Hl Hp'. destruct (wf_topo r W done t todo Hs l Hl) as [d [Hd Hf]]. rewrite Hf in Hp'.
+    apply in_map_iff in Hp'. destruct Hp' as [o [<- Ho]]. exists d. split; [exact Hd|].
+    cbn [snd]. unfold out_rels. apply in_map. exact Ho. }
+  destruct Hp as [Hp|Hp].
+  - unfold all_paths in Hp. apply in_flat_map in Hp. destruct Hp as [x [Hx Hp]].
+    destruct x as [f|l|l]; cbn [src_paths] in Hp.
+    + destruct Hp as [<-|[]]. discriminate.
+    + apply (Hdep l); [apply label_srcs_label; exact Hx|exact Hp].
+    + destruct Hp.
+  - unfold tool_paths in Hp. apply in_flat_map in Hp. destruct Hp as [x [Hx Hp]].
+    destruct x as [f|l|l]; try (destruct Hp; fail).
+    apply (Hdep l); [apply label_srcs_tool; exact Hx|exact Hp].
 Qed.
 
 Lemma inputs_not_own r done t todo p : WF r -> r_targets r = done ++ t :: todo ->
-  In p (all_paths r t) -> fst p = true -> ~ In (snd p) (claimed r t).
+  In p (all_reads r t) -> fst p = true -> ~ In (snd p) (claimed r t).
 Proof.
   intros W Hs Hp Hg Hown. destruct (inputs_earlier r done t todo p W Hs Hp Hg) as [d [Hd Hrel]].
   eapply (claimed_disjoint r done t todo d); try eassumption. apply out_rels_claimed. exact Hrel.
@@ -777,18 +871,48 @@ Proof.
   unfold stale_flow in Hex. rewrite Hcm in Hex. discriminate.
 Qed.
 
-(* the source key is a function of the path-hash streams of the inputs: equal streams, equal key *)
-Lemma source_key_streams r1 r2 st1 st2 t :
-  iter_sources r2 t = iter_sources r1 t ->
-  (forall p, In p (iter_sources r1 t) -> option_map stream (read r2 st2 p) = option_map stream (read r1 st1 p)) ->
-  source_key r2 st2 t = source_key r1 st1 t.
+(* the source key is a function of the path-hash streams of the inputs: equal streams, equal key.  Of a tool only
+   the streams of its outputs count - not even their paths *)
+Lemma gather_key_streams (rd1 rd2 : path -> option node) l :
+  (forall p, In p l -> option_map stream (rd2 p) = option_map stream (rd1 p)) ->
+  option_map key_of (gather rd2 l) = option_map key_of (gather rd1 l).
 Proof.
-  unfold source_key. intros -> H. induction (iter_sources r1 t) as [|p l IH]; [reflexivity|].
+  induction l as [|p l IH]; intros H; [reflexivity|].
   cbn [gather]. pose proof (H p (or_introl eq_refl)) as Hp.
   assert (IH' := IH (fun q Hq => H q (or_intror Hq))). clear IH.
-  destruct (read r2 st2 p) as [n2|], (read r1 st1 p) as [n1|]; cbn [option_map] in Hp; try discriminate.
-  - destruct (gather (read r2 st2) l) as [a|], (gather (read r1 st1) l) as [b|]; cbn [option_map] in *; try discriminate.
+  destruct (rd2 p) as [n2|], (rd1 p) as [n1|]; cbn [option_map] in Hp; try discriminate.
+  - destruct (gather rd2 l) as [a|], (gather rd1 l) as [b|]; cbn [option_map] in *; try discriminate.
     + injection Hp as Hp. injection IH' as IH'. unfold key_of in *. cbn [map fst snd]. rewrite Hp, IH'. reflexivity.
     + reflexivity.
   - reflexivity.
+Qed.
+
+Lemma gather_anon_streams (rd1 rd2 : path -> option node) : forall l1 l2,
+  map (fun p => option_map stream (rd2 p)) l2 = map (fun p => option_map stream (rd1 p)) l1 ->
+  option_map (fun b => key_of (anon_ins b)) (gather rd2 l2) = option_map (fun b => key_of (anon_ins b)) (gather rd1 l1).
+Proof.
+  induction l1 as [|p1 l1 IH]; intros [|p2 l2] H; try discriminate; [reflexivity|].
+  cbn [map] in H. injection H as Hp Hrest. specialize (IH l2 Hrest). cbn [gather].
+  destruct (rd2 p2) as [n2|], (rd1 p1) as [n1|]; cbn [option_map] in Hp; try discriminate.
+  - destruct (gather rd2 l2) as [a|], (gather rd1 l1) as [b|]; cbn [option_map] in *; try discriminate.
+    + injection Hp as Hp. injection IH as IH. unfold key_of, anon_ins in *. cbn [map fst snd]. rewrite Hp, IH. reflexivity.
+    + reflexivity.
+  - reflexivity.
+Qed.
+
+Lemma source_key_streams r1 r2 st1 st2 t :
+  iter_sources r2 t = iter_sources r1 t ->
+  (forall p, In p (iter_sources r1 t) -> option_map stream (read r2 st2 p) = option_map stream (read r1 st1 p)) ->
+  map (fun p => option_map stream (read r2 st2 p)) (tool_paths r2 t)
+  = map (fun p => option_map stream (read r1 st1 p)) (tool_paths r1 t) ->
+  source_key r2 st2 t = source_key r1 st1 t.
+Proof.
+  unfold source_key. intros -> H Ht.
+  pose proof (gather_key_streams (read r1 st1) (read r2 st2) _ H) as Ha.
+  pose proof (gather_anon_streams (read r1 st1) (read r2 st2) _ _ Ht) as Hb.
+  destruct (gather (read r2 st2) (iter_sources r1 t)) as [a2|], (gather (read r1 st1) (iter_sources r1 t)) as [a1|];
+    cbn [option_map] in Ha; try discriminate; [|reflexivity].
+  destruct (gather (read r2 st2) (tool_paths r2 t)) as [b2|], (gather (read r1 st1) (tool_paths r1 t)) as [b1|];
+    cbn [option_map] in Hb; try discriminate; [|reflexivity].
+  injection Ha as Ha. injection Hb as Hb. rewrite Ha, Hb. reflexivity.
 Qed.
